@@ -64,6 +64,9 @@ CHECKS = {
  "C20": dict(engine="enum", technique="bounded-exhaustive enumeration over generated programs: every macro arm x trailing comma written out as a call site, compiled against /repo and looped over a finite argument pool, compared with the explicit constructor",
    text="A generated crate (regenerated and rebuilt on every run) contains every arm of labels!/opts!/histogram_opts!/register_*!/register_*_with_registry! with and without trailing comma (114 call sites); each is run over 216 argument cases x 3 target registries: descriptor and buckets equal the explicit constructor's, the updated handle's sample appears in exactly the named registry, a second identical invocation evaluates to Err.",
    note="argument pools fixed; constructor panics inside the macros (invalid options) not judged", ref="6 C20"),
+ "C19": dict(engine="enum", technique="bounded-exhaustive enumeration over generated programs: every declaration of a bounded grammar compiled (proc-macro expansion) against /repo and executed; children addressed vs. declared label values",
+   text="A generated workspace (regenerated and rebuilt on every run) holds every declaration of the grammar (11 metric forms incl. local and auto-flush, 1-3 labels (thorough 4) x inline/renamed/label_enum/renamed-enum kinds x 1-2 (3) values, every permutation of the label names in the backing vector) plus probe declarations using each local/field name of the generated code as value identifier; every leaf is updated by a distinct power of two through the field path, get(enum) and try_get(str), local forms flushed, and vec.collect() must show exactly the declared children with exactly their amounts.",
+   note="known finding: first-label values named inner/last_flush/flush_millis clash with fields of the generated auto-flush structs (compile error)", ref="6 C19"),
 }
 
 NOT_YET = "check not built yet in this round; planned per DESIGN.md section 6"
